@@ -26,6 +26,7 @@ class TModel:
         self.spec_extra = ""
         self.spec_body = None  # explicit spec text (C10); None => the default one-liner
         self.wd = ""  # working directory relative to the project ("" or a sub-directory; template targets only)
+        self.protect_late = False  # protect entries added to the returned target after its creation
 
     def spec(self):
         if self.spec_body is not None:
@@ -38,7 +39,7 @@ class TModel:
     def to_json(self):
         return dict(name=self.name, inputs=self.inputs, outputs=self.outputs, in_shape=self.in_shape,
                     out_shape=self.out_shape, style=self.style, options=self.options, tpl_options=self.tpl_options,
-                    protect=self.protect, version=self.version, spec_extra=self.spec_extra, spec_body=self.spec_body, wd=self.wd)
+                    protect=self.protect, version=self.version, spec_extra=self.spec_extra, spec_body=self.spec_body, wd=self.wd, protect_late=self.protect_late)
 
     @classmethod
     def from_json(cls, d):
@@ -53,6 +54,7 @@ class TModel:
         t.spec_extra = d.get("spec_extra", "")
         t.spec_body = d.get("spec_body")
         t.wd = d.get("wd", "")
+        t.protect_late = d.get("protect_late", False)
         return t
 
 
@@ -206,7 +208,13 @@ def render(model: WModel, proj: str) -> str:
         outs = shape([spell(p, t.style.get("out:" + p, t.style.get(p, "plain")), proj, t.wd) for p in t.outputs],
                      t.out_shape)
         prot = [spell(p, s, proj, t.wd) for p, s in t.protect]
-        if t.tpl_options is None:
+        if t.tpl_options is None and t.protect_late and prot:
+            kw = "".join(f", {k}={v!r}" for k, v in t.options.items())
+            var = "t_" + t.name.replace(".", "_")
+            out.append(f"{var} = gwf.target({t.name!r}, inputs={ins!r}, outputs={outs!r}{kw}) << {t.spec()!r}")
+            for p in prot:
+                out.append(f"{var}.protect.add({p!r})")
+        elif t.tpl_options is None:
             kw = "".join(f", {k}={v!r}" for k, v in t.options.items())
             out.append(f"gwf.target({t.name!r}, inputs={ins!r}, outputs={outs!r}, protect={prot!r}{kw}) << {t.spec()!r}")
         else:
@@ -273,5 +281,6 @@ def new_target(m, rng, produced=None, option_pool=None, p_no_outputs=0.1, subdir
         for p in t.outputs:
             if rng.chance(0.5):
                 t.protect.append((p, rng.pick(["plain", "plain", "dot", "dotdot", "abs", "abs_dot"])))
+        t.protect_late = rng.chance(0.25)
     m.targets[name] = t
     return t
